@@ -173,8 +173,8 @@ def tlc(module, cfg=None, pid="misc", workers=4, timeout=600, env=None, simulate
             res["tuples"].append([m.group(1)] + _parse_tuple_fields(m.group(2)))
     for m in re.finditer(r"Invariant (\S+) is violated", out):
         res["violated"].append(m.group(1))
-    for m in re.finditer(r"Action property (\S+) is violated|Temporal properties were violated", out):
-        res["violated"].append(m.group(1) or "temporal")
+    for m in re.finditer(r"Action property (\S+) is violated|Temporal property (\S+) (?:was|is) violated|Temporal properties were violated", out):
+        res["violated"].append(m.group(1) or m.group(2) or "temporal")
     ok_end = "Model checking completed. No error has been found." in out or (simulate and rc in (0,))
     if not ok_end and not res["violated"]:
         # parse / semantic / runtime errors
